@@ -813,8 +813,7 @@ class Note(object):
       # Raise exception for unknown step (ex: 'Q')
       raise PitchStepParseError('Unable to parse pitch step ' + step)
 
-    pitch_class = (pitch_class + int(alter)) % 12
-    midi_pitch = (12 + pitch_class) + (int(octave) * 12)
+    midi_pitch = (12 + pitch_class + int(alter)) + (int(octave) * 12)
     return midi_pitch
 
   def __str__(self):
